@@ -11,7 +11,7 @@ From Exmex.Model Require Import Base EvalBinary Lexer Flat Deep Convert Calc Par
 From Exmex.Gen Require Import Tables.
 From Exmex.Spec Require Import RefSem.
 From Exmex.Proofs Require Import Vars DeepVars ChainMachine SortDesc EvalBinaryCorrect Pev PevFold PevRel LevelRun RemoveLoop DeepSem DeepCompile DeepSubs C11Main
-  DeepOps NormalForm RuleAnalysis RealCarrier CalcSem Dual.
+  DeepOps NormalForm Hereditary RuleAnalysis RealCarrier CalcSem Dual.
 Open Scope nat_scope.
 
 Local Notation tb := float_table.
@@ -275,8 +275,9 @@ Proof.
 Qed.
 
 (* ---- the reduction loop and the recursion ---- *)
+Variable gall : list str.      (* the list the variable indices refer to (the variable list of the outermost expression) *)
 Variable vi : nat.
-Hypothesis var_link : forall j x, index_of x all 0 = Some j -> Nat.eqb j vi = str_eqb x xi.
+Hypothesis var_link : forall j x, index_of x gall 0 = Some j -> Nat.eqb j vi = str_eqb x xi.
 Local Notation ddualT := (ddual rho0 xi).
 Local Notation ndualT := (ndual rho0 xi).
 
@@ -349,7 +350,7 @@ Qed.
 
 (* a literal or variable node wrapped into an expression of its own *)
 Lemma leaf_rel fuel' (n : dnode R) v d :
-  match n with DExpr _ => False | DVar j x => index_of x all 0 = Some j | DNum _ => True end ->
+  match n with DExpr _ => False | DVar j x => index_of x gall 0 = Some j /\ In x all | DNum _ => True end ->
   new_deepex Rc [n] [] [] = Ok v -> partial_deepex Rc RDC tb fuel' vi v MError = Ok d ->
   Rel {| vd_val := v; vd_der := d |} (ndualT n).
 Proof.
@@ -370,10 +371,10 @@ Proof.
     { split; [split|].
       - unfold dclosed. rewrite dwf_unfold. split; [reflexivity|]. split; [exact I|]. split; [intros o []|]. constructor; [left; reflexivity|constructor].
       - rewrite nf_unfold. split; [intros d0 Hd; discriminate|constructor; [exact I|constructor]].
-      - intros y [<-|[]]. exact (index_of_In _ _ _ _ Hn). }
+      - intros y [<-|[]]. exact (proj2 Hn). }
     cbn [partial_deepex dnodes] in H.
     assert (Hr : exists r, (if Nat.eqb j vi then d_one Rc RDC else d_zero Rc RDC) = Ok r /\ Wv r /\ forall rho, ddenR rho r = if str_eqb x xi then 1 else 0).
-    { rewrite <- (var_link j x Hn). destruct (Nat.eqb j vi); eexists; (split; [reflexivity|]); [exact (one_v _ eq_refl)|exact (zero_v _ eq_refl)]. }
+    { rewrite <- (var_link j x (proj1 Hn)). destruct (Nat.eqb j vi); eexists; (split; [reflexivity|]); [exact (one_v _ eq_refl)|exact (zero_v _ eq_refl)]. }
     destruct Hr as (r & Er & Wr0 & Dr0). rewrite Er in H. cbn [bind] in H.
     destruct (var_names_union r (DE [DVar j x] [] [] [x])) as [[r' e2]| |] eqn:Eu; cbn [bind] in H; try discriminate.
     destruct (union_v r _ r' e2 Wr0 Wc Eu) as (Wr & _ & Dr).
@@ -383,65 +384,94 @@ Proof.
     split; [intros t; reflexivity|]. rewrite Dd, Dr, Dr0, Do. cbn [duop prodf]. ring.
 Qed.
 
-Lemma vds_rel fuel'
-  (IH : forall e d : deepex R, dconsistent tfl all e -> nf e -> partial_deepex Rc RDC tb fuel' vi e MError = Ok d ->
-        (Wv d /\ dconsistent tfl all d) /\ dvars d = all /\ (dk (ddualT e) -> ddenR rho0 d = dd (ddualT e))) :
-  forall (nodes : list (dnode R)) vds, Forall (nwf tfl (indexed all) (is_list all)) nodes -> Forall nnf nodes ->
+End PartialCorrect.
+
+(* ---- the recursion, for expressions as the constructors build them ---- *)
+Lemma Wv_mono all all' a : incl all all' -> Wv all a -> Wv all' a.
+Proof. intros Hi [Wa Ia]. split; [exact Wa|exact (incl_tran Ia Hi)]. Qed.
+Lemma Rel_mono all all' rho0 xi vd s : incl all all' -> Rel all rho0 xi vd s -> Rel all' rho0 xi vd s.
+Proof. intros Hi (W1 & W2 & R3). split; [exact (Wv_mono _ _ _ Hi W1)|]. split; [exact (Wv_mono _ _ _ Hi W2)|exact R3]. Qed.
+
+Section Recursion.
+Variable gall : list str.
+(* every variable list sorted and within gall; every variable node indexed in gall *)
+Definition okl (v : list str) : Prop := StronglySorted str_lt v /\ incl v gall.
+Definition Ix (e : deepex R) : Prop := dwf tfl (indexed gall) okl e.
+Variable rho0 : str -> R.
+Variable xi : str.
+Variable vi : nat.
+Hypothesis var_link : forall j x, index_of x gall 0 = Some j -> Nat.eqb j vi = str_eqb x xi.
+Local Notation ddualT := (ddual rho0 xi).
+Local Notation ndualT := (ndual rho0 xi).
+Local Notation T0 := (t0 rho0 xi).
+Local Notation DcT := (Dc T0).
+Local Notation ln_ t := (line rho0 xi t).
+Local Open Scope R_scope.
+
+Definition goal_of (e d : deepex R) : Prop :=
+  (Wv (dvars e) d /\ dconsistent tfl (dvars e) d) /\ dvars d = dvars e /\ (dk (ddualT e) -> ddenR rho0 d = dd (ddualT e)).
+
+Lemma W_of (e : deepex R) : Ix e -> hc e -> nf e -> W e.
+Proof. intros Hi Hh Hn. split; [exact (hc_closed tfl (indexed gall) okl e (dvars e) Hi Hh (incl_refl _))|exact Hn]. Qed.
+
+Lemma vds_rel fuel' (all : list str)
+  (IH : forall e d : deepex R, Ix e -> hc e -> nf e -> partial_deepex Rc RDC tb fuel' vi e MError = Ok d -> goal_of e d) :
+  forall (nodes : list (dnode R)) vds, Forall (nwf tfl (indexed gall) okl) nodes -> Forall (nhc all) nodes -> Forall nnf nodes ->
   mapM (fun n => do v <- match n with DExpr e' => Ok e' | _ => new_deepex Rc [n] [] [] end;
                  do d <- partial_deepex Rc RDC tb fuel' vi v MError; Ok {| vd_val := v; vd_der := d |}) nodes = Ok vds ->
-  Forall2 Rel vds (map ndualT nodes).
+  Forall2 (Rel all rho0 xi) vds (map ndualT nodes).
 Proof.
-  induction nodes as [|m ms IHn]; intros vds Hnodes Hch Evds; [cbn in Evds; inversion Evds; constructor|].
-  cbn [mapM] in Evds. inversion Hnodes as [|? ? Hn1 Hn2]; subst. inversion Hch as [|? ? Hc1 Hc2]; subst.
+  induction nodes as [|m ms IHn]; intros vds Hnodes Hhc Hch Evds; [cbn in Evds; inversion Evds; constructor|].
+  cbn [mapM] in Evds. inversion Hnodes as [|? ? Hn1 Hn2]; subst. inversion Hhc as [|? ? Hh1 Hh2]; subst. inversion Hch as [|? ? Hc1 Hc2]; subst.
   match type of Evds with bind ?m0 _ = _ => destruct m0 as [vd| |] eqn:Evd; cbn [bind] in Evds; try discriminate end.
   match type of Evds with bind ?m0 _ = _ => destruct m0 as [vt| |] eqn:Evt; cbn [bind] in Evds; try discriminate end.
-  inversion Evds; subst vds. cbn [map]. constructor; [|exact (IHn vt Hn2 Hc2 eq_refl)].
+  inversion Evds; subst vds. cbn [map]. constructor; [|exact (IHn vt Hn2 Hh2 Hc2 eq_refl)].
   match type of Evd with bind ?m0 _ = _ => destruct m0 as [v| |] eqn:Ev; cbn [bind] in Evd; try discriminate end.
   destruct (partial_deepex Rc RDC tb fuel' vi v MError) as [dv_| |] eqn:Ed; cbn [bind] in Evd; try discriminate. inversion Evd; subst vd.
-  destruct m as [e'|d0|j x]; cbn [nwf nnf] in *.
-  - inversion Ev; subst v. destruct (IH e' dv_ Hn1 (proj1 Hc1) Ed) as ([Wd _] & _ & Dd).
-    pose proof (dconsistent_vars _ _ _ Hn1) as Hv'.
-    assert (We' : Wv e') by (split; [split; [rewrite Hv'; apply dconsistent_closed; exact Hn1|exact (proj1 Hc1)]|rewrite Hv'; apply incl_refl]).
-    split; [exact We'|]. split; [exact Wd|]. split; [apply ddual_sound|]. intros Hk. cbn [vd_val vd_der ndual].
+  destruct m as [e'|d0|j x]; cbn [nwf nnf nhc] in *.
+  - inversion Ev; subst v. destruct Hh1 as [Hi1 Hh1]. destruct (IH e' dv_ Hn1 Hh1 (proj1 Hc1) Ed) as ([Wd _] & _ & Dd).
+    assert (We' : Wv all e') by (split; [exact (W_of e' Hn1 Hh1 (proj1 Hc1))|exact Hi1]).
+    split; [exact We'|]. split; [exact (Wv_mono _ _ _ Hi1 Wd)|]. split; [apply ddual_sound|]. intros Hk. cbn [vd_val vd_der ndual].
     split; [intros t; symmetry; apply ddual_dv|exact (Dd Hk)].
-  - exact (leaf_rel fuel' (DNum d0) v dv_ I Ev Ed).
-  - exact (leaf_rel fuel' (DVar j x) v dv_ Hn1 Ev Ed).
+  - exact (leaf_rel all rho0 xi gall vi var_link fuel' (DNum d0) v dv_ I Ev Ed).
+  - exact (leaf_rel all rho0 xi gall vi var_link fuel' (DVar j x) v dv_ (conj Hn1 Hh1) Ev Ed).
 Qed.
 
-Theorem partial_ok : forall fuel (e d : deepex R), dconsistent tfl all e -> nf e ->
-  partial_deepex Rc RDC tb fuel vi e MError = Ok d ->
-  (Wv d /\ dconsistent tfl all d) /\ dvars d = all /\ (dk (ddualT e) -> ddenR rho0 d = dd (ddualT e)).
+Theorem partial_ok : forall fuel (e d : deepex R), Ix e -> hc e -> nf e ->
+  partial_deepex Rc RDC tb fuel vi e MError = Ok d -> goal_of e d.
 Proof.
-  induction fuel as [|fuel' IH]; intros e d Hc Hnf H; [discriminate|].
-  pose proof (dconsistent_vars _ _ _ Hc) as Hvars.
-  assert (We : Wv e) by (split; [split; [rewrite Hvars; apply dconsistent_closed; exact Hc|exact Hnf]|rewrite Hvars; apply incl_refl]).
-  destruct e as [nodes bops uop vars]. cbn [dvars] in Hvars. subst vars.
-  unfold dconsistent in Hc. rewrite dwf_unfold in Hc. destruct Hc as (Hlen & _ & Hops & Hnodes).
+  induction fuel as [|fuel' IH]; intros e d Hc Hh Hnf H; [discriminate|].
+  pose proof (W_of e Hc Hh Hnf) as We0.
+  destruct e as [nodes bops uop vars]. unfold goal_of. cbn [dvars] in *.
+  assert (We : Wv vars (DE nodes bops uop vars)) by (split; [exact We0|apply incl_refl]).
+  unfold Ix in Hc. rewrite dwf_unfold in Hc. destruct Hc as (Hlen & [Hsorted _] & Hops & Hnodes).
+  rewrite hc_unfold in Hh.
   pose proof Hnf as Hnf0. rewrite nf_unfold in Hnf. destruct Hnf as [_ Hch].
   rewrite ddual_unfold. set (lvl := level_val DcT (map ndualT nodes) bops).
-  assert (Hlv : forall t, dv lvl t = ddenR (ln_ t) (strip (DE nodes bops uop all))).
-  { intros t. pose proof (ddual_dv rho0 xi (strip (DE nodes bops uop all)) t) as Hd. unfold strip in *. cbn [dnodes dbops dvars] in *.
+  assert (Hlv : forall t, dv lvl t = ddenR (ln_ t) (strip (DE nodes bops uop vars))).
+  { intros t. pose proof (ddual_dv rho0 xi (strip (DE nodes bops uop vars)) t) as Hd. unfold strip in *. cbn [dnodes dbops dvars] in *.
     rewrite ddual_unfold in Hd. exact Hd. }
   cbn [partial_deepex] in H.
   match type of H with bind ?m _ = _ => destruct m as [inner| |] eqn:Einner; cbn [bind] in H; try discriminate end.
-  refine (finish (DE nodes bops uop all) inner d lvl We eq_refl _ _ Hlv _ H); cbn [dnodes dbops] in Einner.
+  refine (finish vars Hsorted rho0 xi (DE nodes bops uop vars) inner d lvl We eq_refl _ _ Hlv _ H); cbn [dnodes dbops] in Einner.
   all: destruct nodes as [|n [|n2 tl]]; [cbn in Hlen; discriminate| |].
   (* one node *)
   1,3,5: destruct bops; [|cbn in Hlen; lia];
     match type of Einner with bind ?m _ = _ => destruct m as [r| |] eqn:Er; cbn [bind] in Einner; try discriminate end;
-    assert (Hr : Wv r /\ (dk (ndualT n) -> ddenR rho0 r = dd (ndualT n)));
-    [ inversion Hnodes as [|? ? Hn1 _]; subst; inversion Hch as [|? ? Hc1 _]; subst; destruct n as [e'|d0|j x]; cbn [nwf nnf] in *;
-      [ destruct (IH e' r Hn1 (proj1 Hc1) Er) as ([Wr _] & _ & Dr); split; [exact Wr|exact Dr]
-      | apply zero_v in Er; destruct Er as [Wr Dr]; split; [exact Wr|intros _; rewrite Dr; reflexivity]
+    assert (Hr : Wv vars r /\ (dk (ndualT n) -> ddenR rho0 r = dd (ndualT n)));
+    [ inversion Hnodes as [|? ? Hn1 _]; subst; inversion Hch as [|? ? Hc1 _]; subst; inversion Hh as [|? ? Hh1 _]; subst;
+      destruct n as [e'|d0|j x]; cbn [nwf nnf nhc] in *;
+      [ destruct Hh1 as [Hi1 Hh1]; destruct (IH e' r Hn1 Hh1 (proj1 Hc1) Er) as ([Wr _] & _ & Dr); split; [exact (Wv_mono _ _ _ Hi1 Wr)|exact Dr]
+      | apply (zero_v vars) in Er; destruct Er as [Wr Dr]; split; [exact Wr|intros _; rewrite Dr; reflexivity]
       | rewrite (var_link j x Hn1) in Er; cbn [ndual vdual dd]; destruct (str_eqb x xi);
-        [apply one_v in Er|apply zero_v in Er]; destruct Er as [Wr Dr]; (split; [exact Wr|intros _; rewrite Dr; reflexivity]) ]
-    | destruct Hr as [Wr Dr]; destruct (inner_union r _ inner Wr We eq_refl Einner) as (Wi & Vi & Di);
+        [apply (one_v vars) in Er|apply (zero_v vars) in Er]; destruct Er as [Wr Dr]; (split; [exact Wr|intros _; rewrite Dr; reflexivity]) ]
+    | destruct Hr as [Wr Dr]; destruct (inner_union vars Hsorted r _ inner Wr We eq_refl Einner) as (Wi & Vi & Di);
       first [exact Wi|exact Vi|(intros Hk; rewrite Di; apply Dr; exact Hk)] ].
   (* several nodes *)
   all: set (nodes := n :: n2 :: tl) in *.
   all: match type of Einner with bind ?m _ = _ => destruct m as [vds| |] eqn:Evds; cbn [bind] in Einner; try discriminate end.
   all: match type of Einner with bind ?m _ = _ => destruct m as [final| |] eqn:Efinal; cbn [bind] in Einner; try discriminate end.
-  all: assert (Hrel : Forall2 Rel vds (map ndualT nodes)) by exact (vds_rel fuel' IH nodes vds Hnodes Hch Evds).
+  all: assert (Hrel : Forall2 (Rel vars rho0 xi) vds (map ndualT nodes)) by exact (vds_rel fuel' vars IH nodes vds Hnodes Hh Hch Evds).
   all: rewrite inner_loop_rloop in Efinal.
   all: assert (Hlr : length (map ndualT (n2 :: tl)) = length (map to_fop bops)) by (rewrite !map_length; cbn in Hlen; cbn; lia).
   all: assert (Hassoc : forall o, In o (map to_fop bops) -> fcomm o = true ->
@@ -455,8 +485,8 @@ Proof.
   all: destruct (sort_desc_spec (dkey nodes bops) (length bops)) as (_ & NDs & Hin).
   all: assert (Hsim : exists sx' sl', ChainMachine.run (bop_at DcT bops) (prioritized_indices bops nodes) (ndualT n)
                    (chain_from dual (EvalBinaryCorrect.vals_of dual (dflt DcT) (ndualT n :: map ndualT (n2 :: tl))) 0%nat (length bops)) = Some (sx', sl') /\
-                 Forall2 Rel final (sx' :: map snd sl'));
-    [ apply (rloop_sim (opA bops) (bop_at DcT bops) Rel (opA_sim bops) (prioritized_indices bops nodes) 0%nat (prioritized_indices bops nodes) vds);
+                 Forall2 (Rel vars rho0 xi) final (sx' :: map snd sl'));
+    [ apply (rloop_sim (opA bops) (bop_at DcT bops) (Rel vars rho0 xi) (opA_sim vars rho0 xi bops) (prioritized_indices bops nodes) 0%nat (prioritized_indices bops nodes) vds);
       [ replace (length bops) with (length (map ndualT (n2 :: tl))) by (rewrite Hlr, map_length; reflexivity); rewrite map_snd_chain; exact Hrel
       | rewrite chain_from_ids; apply seq_NoDup
       | exact NDs
@@ -465,9 +495,9 @@ Proof.
     |].
   all: destruct Hsim as (sx' & sl' & Hrun' & Hfin); unfold prioritized_indices in Hrun'; rewrite Hrun in Hrun'; inversion Hrun'; subst sx' sl'.
   all: inversion Hfin as [|vd s0 ft st Hvd Hft]; subst; inversion Hft; subst.
-  all: assert (Hvd' : Rel vd lvl) by (apply (Rel_deq vd v lvl); [exact Hdeq|exact Hvd]).
+  all: assert (Hvd' : Rel vars rho0 xi vd lvl) by (apply (Rel_deq vars rho0 xi vd v lvl); [exact Hdeq|exact Hvd]).
   all: destruct Hvd' as (_ & Wder & _ & Kder).
-  all: destruct (inner_union (vd_der vd) _ inner Wder We eq_refl Einner) as (Wi & Vi & Di).
+  all: destruct (inner_union vars Hsorted (vd_der vd) _ inner Wder We eq_refl Einner) as (Wi & Vi & Di).
   all: first [exact Wi|exact Vi|(intros Hk; rewrite Di; exact (proj2 (Kder Hk)))].
 Qed.
-End PartialCorrect.
+End Recursion.
